@@ -64,7 +64,21 @@ def scenarios(rng, n, tier):
                     # act on other jobs only at an instant of my own (never shared with a target)
                     acts.insert(0, ["sl", off])
                 acts = [a if a[0] != "sl" or a[1] != 0 else ["sl", off] for a in acts]
-                runs.append({"acts": acts, "raises": rng.random() < 0.15})
+                runs.append({"acts": acts, "raises": (rng.choice(impl_aio.AIO_EXC) if rng.random() < 0.15 else False)})
+            if o["call"] == 0 and rng.random() < 0.15:
+                # a window that ends while a run is still suspended, or that lies in the past altogether:
+                # the job has to work off what is planned up to `stop` and then disappear on its own
+                off_ = tz
+                if rng.random() < 0.5:
+                    o.pop("start", None)
+                    o["stop"] = [clock + 3 * p + (off_ or 0), off_]
+                    runs[0] = {"acts": [["sl", 4 * p + [101, 211, 307, 401, 503][i % 5]]], "raises": False}
+                else:
+                    a = rng.randint(2, 4)
+                    o["start"] = [clock - a * p + (off_ or 0), off_]
+                    o["stop"] = [clock - rng.randint(0, a - 1) * p + (off_ or 0), off_]
+                    if o["stop"][0] <= o["start"][0]:
+                        o["stop"][0] = o["start"][0] + S
             o["runs"] = runs
             scn["ops"].append(o)
             periods.append(p)
@@ -90,7 +104,7 @@ def scenarios(rng, n, tier):
 
 def specs(r):
     from .. import aiomix
-    qs = aiomix.probe_specs(r)
+    qs = aiomix.probe_specs(r) + aiomix.idle_specs(r)
     scn = r["scn"]
     gone_at = {}     # key -> instant after which no start may happen
     for i, (o, ob) in enumerate(zip(scn["ops"], r["obs"])):
